@@ -77,6 +77,7 @@ Mutants this was built against (scratch worktrees; all semantic ones caught):
 """
 import contextlib
 import errno
+import inspect
 import itertools
 import os
 import posixpath
@@ -127,6 +128,12 @@ SEEDS = [b"inside", b"a/f", b"a", b"a/a", b"a/a/f", b"~/f", b"~user/f", b"~user/
          b"%2e%2e%2fcanary%ff", b"..%2fnew-file", b"a/..%2f..%2fnew-dir"]
 
 
+# client paths pushed through EVERY registered verb (the whole registry, every client-path position)
+REGISTRY_PATHS = [b"..%2Fcanary", b"a", b"..%2Fa", b"%2E%2E/canary", b"../canary", b"a/..%2F..%2Fevil", b"..%2Fevil",
+                  b"%%32E%%32E/canary", b"~/..%2F..%2F..%2Fcanary", b"..%252Fcanary", b"..%2Fnew-dir", b"/../a",
+                  b"\xc3\xa9/../..%2Fa", b"..%2F", b"%2F..%2Fa", b"a/a/..%2F..%2F..%2Fa"]
+
+
 def hexb(b):
     return b.hex() if b else "-"
 
@@ -144,10 +151,16 @@ def _w(path, data):
         f.write(data)
 
 
+# canonical (escape-image) relpaths read through every transport_from_client_path(...) clone: what the
+# theorems quantify over as `Canon rel` (multi-segment, control files, %20, %25, non-ASCII)
+CLONE_RELS = [b"f", b".bzr/branch-format", b"a%20b", b"%25", b"a/f", b"x/%C3%A9", b"a%20b/%25"]
+
 INSIDE_FILES = [
     "inside", "canary", "f", "a/f", "a/a/f", "a/a/a/f", "a/canary", "\u00e9/f", "~/f", "~user/f", "home/u/f",
     "home/user/f", "%2E%2E/f", "%2e%2e/f", "%2F/f", "%2E/f", "..%2Fcanary", "%2E%2E%2Fcanary", "%00/f",
     "a/~/f", "a/\u00e9/f", "~/a/f", "~user/a/f", "home/u/a/f", "home/user/a/f", "2/h/f", "srv/f", "a/..%2Ff",
+    "%", "a/%", "x/\u00e9", "a/x/\u00e9", "a b/%", "a/a b/%", "home/u/a b", "home/my user/f",
+    "home/my user/a/f", "..%2Fevil/f", "%%32E%%32E/f", "%41/f", "ab/f", "a b/f",
 ]
 
 
@@ -172,8 +185,191 @@ def make_world(tag):
         ControlDir.create_branch_convenience(os.path.join(w.W, "a"), format=format_registry.make_controldir("2a"))
         ControlDir.create_branch_convenience(os.path.join(w.W, "evil"), format=format_registry.make_controldir("2a"))
     w.servers = {}
-    w.pristine = snapshot(w, content=True)
+    # a byte-identical copy next to the world: whatever a verb changes is put back from it
+    w.copy = w.W + ".pristine"
+    shutil.copytree(w.W, w.copy, symlinks=True)
+    w.clean = fingerprint(w)
+    w.watch = Watcher(w)
+    ctx_detector[0] = "inotify" if w.watch.fd is not None else "stat-fingerprint"
     return w
+
+
+ctx_detector = [None]
+
+
+def fingerprint(w):
+    """cheap change detector for the whole world (control directories included): relpath ->
+    (mode, size, mtime_ns, inode).  Directories carry their mtime only (it moves when an entry is
+    added, removed or renamed)."""
+    out = {}
+    top = os.fsencode(w.W)
+    n = len(top) + 1
+    stack = [top]
+    while stack:
+        d = stack.pop()
+        with os.scandir(d) as it:
+            for e in it:
+                st = e.stat(follow_symlinks=False)
+                if e.is_dir(follow_symlinks=False):
+                    out[e.path[n:]] = (st.st_mode, 0, st.st_mtime_ns, st.st_ino)
+                    stack.append(e.path)
+                else:
+                    out[e.path[n:]] = (st.st_mode, st.st_size, st.st_mtime_ns, st.st_ino)
+    return out
+
+
+class Watcher:
+    """inotify watch on every directory of a world (control directories included).  `changed()` returns
+    the relpaths (relative to the world) that were created, removed, renamed, written or chmod-ed since the
+    last call — one read() per check instead of a stat of every entry.  Falls back to comparing stat
+    fingerprints when inotify is unavailable or its queue overflowed."""
+    MASK = 0x2 | 0x4 | 0x40 | 0x80 | 0x100 | 0x200 | 0x400 | 0x800   # MODIFY ATTRIB MOVED_FROM MOVED_TO CREATE DELETE DELETE_SELF MOVE_SELF
+
+    def __init__(self, w):
+        self.w = w
+        self.fd = None
+        self.libc = None
+        self.arm()
+
+    def arm(self):
+        import ctypes
+        self.close()
+        self.wd = {}
+        try:
+            self.libc = ctypes.CDLL(None, use_errno=True)
+            fd = self.libc.inotify_init1(0o4000 | 0o2000000)       # IN_NONBLOCK | IN_CLOEXEC
+            if fd < 0:
+                raise OSError(ctypes.get_errno(), "inotify_init1")
+            self.fd = fd
+            self.add_tree(b"")
+        except (OSError, AttributeError):
+            self.close()
+
+    def add_tree(self, rel):
+        """watch the directory `rel` (relative to the world) and everything below it"""
+        if self.fd is None:
+            return
+        top = os.fsencode(self.w.W)
+        stack = [rel]
+        while stack:
+            r = stack.pop()
+            d = os.path.join(top, r) if r else top
+            wd = self.libc.inotify_add_watch(self.fd, d, self.MASK)
+            if wd < 0:
+                raise OSError("inotify_add_watch")
+            self.wd[wd] = r
+            with os.scandir(d) as it:
+                stack.extend((r + b"/" + e.name) if r else e.name for e in it if e.is_dir(follow_symlinks=False))
+
+    def close(self):
+        if self.fd is not None:
+            os.close(self.fd)
+            self.fd = None
+
+    def drain(self):
+        self.changed()
+
+    def changed(self):
+        """set of changed relpaths, or None = unknown (compare fingerprints)"""
+        import struct
+        if self.fd is None:
+            return None
+        out, overflow = set(), False
+        while True:
+            try:
+                buf = os.read(self.fd, 1 << 16)
+            except BlockingIOError:
+                break
+            if not buf:
+                break
+            i = 0
+            while i + 16 <= len(buf):
+                wd, mask, _cookie, n = struct.unpack_from("iIII", buf, i)
+                name = buf[i + 16:i + 16 + n].split(b"\0", 1)[0]
+                i += 16 + n
+                if mask & 0x4000:            # IN_Q_OVERFLOW
+                    overflow = True
+                    continue
+                if mask & 0x8000:            # IN_IGNORED (watch removed with its directory)
+                    self.wd.pop(wd, None)
+                    continue
+                d = self.wd.get(wd)
+                if d is None:
+                    continue
+                if mask & (0x400 | 0x800) and not name:      # DELETE_SELF / MOVE_SELF: reported by the parent too
+                    out.add(d) if d else None
+                    continue
+                out.add((d + b"/" + name) if d else name)
+        return None if overflow else out
+
+
+def fp_changed(before, after):
+    """relpaths (bytes, relative to the world) that were created, removed or modified"""
+    ch = [p for p in after if before.get(p) != after[p]] + [p for p in before if p not in after]
+    return sorted(set(ch))
+
+
+def is_inside(rel):
+    return rel == b"root" or rel.startswith(b"root/")
+
+
+def put_back(w, changed):
+    """undo what a verb did: every changed relpath is put back from the pristine copy (or removed when the
+    pristine world does not have it)"""
+    W, C = os.fsencode(w.W), os.fsencode(w.copy)
+    done = []
+    for rel in sorted(changed, key=len):
+        if any(rel.startswith(d + b"/") for d in done):
+            continue
+        dst, src = os.path.join(W, rel), os.path.join(C, rel)
+        src_dir = os.path.isdir(src) and not os.path.islink(src)
+        dst_dir = os.path.isdir(dst) and not os.path.islink(dst)
+        if src_dir and dst_dir:
+            continue                    # the directory is still there; its entries have events of their own
+        if dst_dir:
+            shutil.rmtree(dst)
+        elif os.path.lexists(dst):
+            os.unlink(dst)
+        if src_dir:
+            shutil.copytree(src, dst, symlinks=True)
+            done.append(rel)
+            w.watch.add_tree(rel)
+        elif os.path.lexists(src):
+            shutil.copy2(src, dst, follow_symlinks=False)
+        else:
+            done.append(rel)
+    if w.watch.fd is None:
+        w.clean = fingerprint(w)
+    else:
+        w.watch.drain()
+
+
+def differs_from_pristine(w, rel):
+    """the entry `rel` of the world is not what it was when the world was made (existence, kind, content)"""
+    dst, src = os.path.join(os.fsencode(w.W), rel), os.path.join(os.fsencode(w.copy), rel)
+    if os.path.lexists(dst) != os.path.lexists(src):
+        return True
+    if not os.path.lexists(dst):
+        return False                      # a temporary name that came and went
+    if os.path.islink(dst) or os.path.islink(src):
+        return not (os.path.islink(dst) and os.path.islink(src) and os.readlink(dst) == os.readlink(src))
+    if os.path.isdir(dst) != os.path.isdir(src):
+        return True
+    if os.path.isdir(dst):
+        return False                      # entries of a directory are reported on their own
+    with open(dst, "rb") as f, open(src, "rb") as g:
+        return f.read() != g.read() or os.stat(dst).st_mode != os.stat(src).st_mode
+
+
+def world_changes(w):
+    """relpaths changed since the last call (inotify; stat fingerprints as a fallback)"""
+    ch = w.watch.changed()
+    if ch is None:
+        after = fingerprint(w)
+        ch = set(fp_changed(w.clean, after))
+        if w.watch.fd is not None:      # queue overflow: start again from a known state
+            w.clean = after
+    return ch
 
 
 def _table_expander(table):
@@ -188,14 +384,31 @@ def _table_expander(table):
     return expander
 
 
+def _pinned_getpwnam(name):
+    """the password database of a host without any of the accounts the generator names: what the real
+    pwd.getpwnam does there (ValueError for an embedded NUL, KeyError otherwise).  A host account called
+    `user`, `a` or `home` must not change what `~user` expands to relative to the model's table."""
+    if "\x00" in name:
+        raise ValueError("embedded null byte")
+    raise KeyError("getpwnam(): name not found: %r" % (name,))
+
+
 def _real_expander(home):
+    """the real os.path.expanduser (the factory's default expander) with $HOME inside the served directory
+    and the password database pinned for the duration of the call"""
     def expander(p):
-        old = os.environ.get("HOME")
+        import pwd
+        old, old_nam = os.environ.get("HOME"), pwd.getpwnam
         os.environ["HOME"] = home
+        pwd.getpwnam = _pinned_getpwnam
         try:
             return posixpath.expanduser(p)
         finally:
-            os.environ["HOME"] = old
+            pwd.getpwnam = old_nam
+            if old is None:
+                os.environ.pop("HOME", None)
+            else:
+                os.environ["HOME"] = old
     return expander
 
 
@@ -207,7 +420,20 @@ class Server:
 CONFIGS = [("/", "real"), ("/srv/", "table"), ("a", "twin"), ("/", "plain")]
 
 
-def make_server(w, rcp, kind=None):
+# user tables whose home directories are NOT canonical escaped strings ({} is replaced by the served directory).
+# `mild` (every '%' starts an upper-case escape of a byte outside A-Za-z0-9-._~/; theorem userdir_locate_inside)
+# or not (witness userdir_percent_home_witness)
+HOME_TABLES = [
+    ("space", {"": "{}/home/my user"}),                       # mild: a space
+    ("unicode+space", {"": "{}/home/u", "user": "{}/a b"}),    # mild
+    ("pct-slash-dotdot", {"": "{}/..%2Fevil"}),               # a directory literally named "..%2Fevil"
+    ("double-pct-dotdot", {"": "{}/%%32E%%32E"}),             # a directory literally named "%%32E%%32E"
+    ("pct-unreserved", {"": "{}/%41"}),                       # a directory literally named "%41"
+]
+HOME_PATHS = [b"~/f", b"~", b"~/", b"~/a/f", b"~/../f", b"~/..%2Ff", b"~user/f", b"~/%2E%2E/f", b"~/secret", b"~/a%20b"]
+
+
+def make_server(w, rcp, kind=None, table=None):
     """the real BzrServerFactory stack over a tracing local transport"""
     kind = kind or {"/": "real", "/srv/": "table", "a": "twin"}[rcp]
     from breezy import transport as T
@@ -231,6 +457,10 @@ def make_server(w, rcp, kind=None):
     elif kind == "twin":
         s.table = {"": w.W + "/root2/h/", "user": w.root + "/home/user/"}
         s.base = w.root          # no trailing slash: sibling-prefix expansion
+        exp = _table_expander(s.table)
+    elif kind.startswith("homes:"):
+        s.table = {k: v.format(w.root) for k, v in (table or dict(HOME_TABLES)[kind[6:]]).items()}
+        s.base = real_base
         exp = _table_expander(s.table)
     else:
         # no local base path known: the factory installs the chroot only
@@ -440,7 +670,7 @@ def probe_fx(s):
 # --------------------------------------------------------------------------
 # T2 part 1: translate functions, clone, traced read through the stack
 
-def t2_paths(ctx, s, cps, fx, deep=True):
+def t2_paths(ctx, s, cps, fx, deep=True, all_rels=False):
     from breezy.bzr.smart import request as R, vfs
     w = s.world
     rcp_h = hexb(s.rcp.encode())
@@ -475,14 +705,27 @@ def t2_paths(ctx, s, cps, fx, deep=True):
             lines.append("clone %s" % hexb(r.encode("utf-8")))
             outs.append(o_clone)
             if c is not None:
-                take_activity(s)
-                out = read_outcome_real(lambda: c.get_bytes("f"))
-                act = take_activity(s)
-                bk = act[0][1].encode("utf-8", "surrogateescape") if act else None
-                post.append((dict(case, op="loc-clone"), len(lines), bk, out))
-                lines.append("loc %s %s %s %s %s" % (root_h, base_h, tbl, hexb(r.encode("utf-8")), hexb(b"f")))
-                cases.append(None)
-                outs.append(None)
+                # a traced read below the clone: "f" and one more canonical relpath (all of them for the
+                # hand-picked paths), compared with `combine cloneStk rel` of the model
+                nrel = s.__dict__.setdefault("_nrel", [0])
+                nrel[0] += 1
+                rels = (CLONE_RELS if all_rels else
+                        [b"f", CLONE_RELS[1 + (nrel[0] // 3) % (len(CLONE_RELS) - 1)]] if nrel[0] % 3 == 0 else [b"f"])
+                for rel in rels:
+                    take_activity(s)
+                    out = read_outcome_real(lambda: c.get_bytes(rel.decode()))
+                    act = take_activity(s)
+                    bk = act[0][1].encode("utf-8", "surrogateescape") if act else None
+                    post.append((dict(case, op="loc-clone", rel=rel.decode()), len(lines), bk, out))
+                    lines.append("loc %s %s %s %s %s" % (root_h, base_h, tbl, hexb(r.encode("utf-8")), hexb(rel)))
+                    cases.append(None)
+                    outs.append(None)
+                    ctx.count("clone-rel:%s" % rel.decode())
+                    if out.startswith("data:") and MARK_OUT.hex() in out:
+                        ctx.violation(dict(case, op="clone-read", rel=rel.decode()),
+                                      "client path %r (root client path %r): a read of %r below "
+                                      "transport_from_client_path returns a file OUTSIDE the served directory"
+                                      % (cp, s.rcp, rel), family=_home_family(s, cp))
         if rv is not None:
             take_activity(s)
             out = read_outcome_real(lambda: s.bt.get_bytes(rv))
@@ -497,7 +740,7 @@ def t2_paths(ctx, s, cps, fx, deep=True):
                 ctx.violation(dict(case, op="vfs-read"),
                               "VFS path %r (root client path %r) translated to %r reads a file OUTSIDE the served "
                               "directory: %r" % (cp, s.rcp, rv, bytes.fromhex(out[5:])[:60]),
-                              family=_family("vfs", cp, rv))
+                              family=_family("vfs", cp, rv) or _home_family(s, cp))
     replies = ctx.model(lines)
     suspects = []       # the implementation accepted a path the model rejects: re-run under the canary oracle
     for c, l, i, m in zip(cases, lines, outs, replies):
@@ -551,6 +794,23 @@ def t2_paths(ctx, s, cps, fx, deep=True):
     return suspects
 
 
+def _home_family(s, cp):
+    """finding family for a server whose user table has a home directory that is not mild, computed from the
+    concrete input: the client path names a user (`~` / `~name`) whose home directory, as a path below the
+    base path, contains a percent escape that decodes (in one or two passes) to a '..' segment"""
+    from urllib.parse import unquote_to_bytes as uq
+    if not s.kind.startswith("homes:") or not cp.lstrip(b"/").startswith(b"~"):
+        return None
+    name = cp.lstrip(b"/")[1:].split(b"/", 1)[0].decode("utf-8", "replace")
+    home = s.table.get(name)
+    if home is None or s.base is None or not home.startswith(s.base):
+        return None
+    below = home[len(s.base):].encode()
+    if b"%" in below and (b".." in uq(below).split(b"/") or b".." in uq(uq(below)).split(b"/")):
+        return "userdir-home-encoded-dotdot"
+    return None
+
+
 def _family(kind, cp, translated=None):
     """classify a failing input by what it contains; anything unexpected gets None.
     Only URLs opened during a request (kind 'jail') have finding families (external dromedary chroot
@@ -575,20 +835,124 @@ def _family(kind, cp, translated=None):
 # --------------------------------------------------------------------------
 # verbs through the real request handler, in two worlds
 
-READ_VERBS = [
-    (b"has", 1), (b"get", 1), (b"stat", 1), (b"list_dir", 1), (b"iter_files_recursive", 1),
-    (b"BzrDir.open_2.1", 1), (b"BzrDir.open_branchV3", 1), (b"BzrDir.find_repositoryV3", 1),
-    (b"Branch.last_revision_info", 1), (b"Branch.get_config_file", 1), (b"Repository.is_shared", 1),
-    (b"BzrDir.get_branches", 1),
-]
-WRITE_VERBS = [b"put", b"mkdir", b"append", b"put_non_atomic", b"BzrDirFormat.initialize"]
-VFS_VERBS = {b"has", b"get", b"stat", b"list_dir", b"iter_files_recursive", b"put", b"mkdir", b"append",
-             b"put_non_atomic"}
+# the verbs dispatched for EVERY generated client path (the whole registry is swept for a subset, see
+# `registry_plans`): every vfs.*Request class and the non-VFS verbs that open a control directory,
+# a branch, a repository or create something
+CORE_VERBS = [
+    b"has", b"get", b"stat", b"list_dir", b"iter_files_recursive", b"readv",
+    b"BzrDir.open_2.1", b"BzrDir.open_branchV3", b"BzrDir.find_repositoryV3",
+    b"Branch.last_revision_info", b"Branch.get_config_file", b"Repository.is_shared", b"BzrDir.get_branches",
+    b"put", b"mkdir", b"append", b"put_non_atomic", b"rename", b"delete", b"rmdir",
+    b"BzrDirFormat.initialize",
+]       # `move` (same argument handling as rename, but it copies whole trees) runs in the registry sweep
+PATH_PARAMS = ("path", "relpath", "rel_from", "rel_to")
+# `do(self, path, *args)` hands the remaining wire arguments to one of these methods
+HELPER_CHAIN = {"do": ("do_with_branch", "do_repository_request", "do_bzrdir_request"),
+                "do_with_branch": ("do_with_locked_branch",),
+                "do_with_locked_branch": ("do_tip_change_with_locked_branch",),
+                "do_repository_request": ("do_readlocked_repository_request",)}
+# responses whose body carries timestamps of the (separately created) worlds
+BODY_UNSTABLE = {b"Repository.tarball", b"Repository.revision_archive"}
 
 
-def _verb_family(verb, cp):
-    """no verb has a finding family any more (the VFS breakout was fixed): always a plain violation"""
-    return None
+def wire_params(cls):
+    """names of the wire arguments of a request class: the parameters of do(), following a `*args`
+    through the helper method it is handed to (required parameters only)"""
+    names, meth, seen = [], "do", set()
+    while meth and meth not in seen:
+        seen.add(meth)
+        ps = list(inspect.signature(getattr(cls, meth)).parameters.values())[1:]
+        var = False
+        for q in ps:
+            if q.kind == q.VAR_POSITIONAL:
+                var = True
+                break
+            if q.kind == q.VAR_KEYWORD or q.default is not q.empty:
+                continue
+            if meth != "do" and q.name in ("branch", "repository"):
+                continue
+            names.append(q.name)
+        meth = next((c for c in HELPER_CHAIN.get(meth, ()) if var and hasattr(cls, c)), None)
+    return names
+
+
+_PLANS = {}
+
+
+def registry_plans():
+    """verb -> (argument names, indices of the client-path arguments) for EVERY entry of
+    request.request_handlers that takes a client path; the others are listed under 'skipped'"""
+    if _PLANS:
+        return _PLANS
+    from breezy.bzr.smart import request as R
+    plans, skipped = {}, {}
+    for verb in sorted(R.request_handlers.keys()):
+        try:
+            cls = R.request_handlers.get(verb)
+            names = wire_params(cls)
+        except Exception as e:            # cannot be constructed / inspected
+            skipped[verb.decode()] = "unconstructible: %s" % type(e).__name__
+            continue
+        idx = [i for i, n in enumerate(names) if n in PATH_PARAMS]
+        if not idx:
+            skipped[verb.decode()] = "no client-path argument"
+            continue
+        plans[verb] = (names, idx, cls)
+    _PLANS.update(plans=plans, skipped=skipped)
+    return _PLANS
+
+
+def _formats():
+    from breezy.controldir import format_registry
+    d = format_registry.make_controldir("2a")
+    return dict(bzrdir=d.network_name(), repo=d.repository_format.network_name(),
+                branch=d.get_branch_format().network_name())
+
+
+def filler(verb, name, fm):
+    """a plausible wire value for a non-path argument (the path argument is what is under test; whatever
+    the other arguments are, the response must not depend on the outside of the served directory)"""
+    if name == "network_name":
+        return fm["repo"] if verb == b"BzrDir.create_repository" else fm["branch"]
+    if name == "bzrdir_network_name":
+        return fm["bzrdir"]
+    if name in ("use_existing_dir", "create_prefix", "create_parent"):
+        return b"True" if verb.startswith(b"BzrDirFormat") else b"T"
+    if name in ("force_new_repo", "make_working_trees", "shared_repo", "shared", "str_bool_new_value"):
+        return b"False"
+    if name in ("revision_id", "revid", "new_last_revision_id"):
+        return b"null:"
+    if name in ("revno", "new_revno"):
+        return b"0"
+    if name == "to_network_name":
+        return fm["repo"]
+    return b""
+
+
+BODIES = {b"put": b"W:put", b"append": b"W:append", b"put_non_atomic": b"W:pna", b"readv": b"0,1"}
+
+
+def verb_calls(verb, cp, pre):
+    """the argument tuples for one verb with the hostile client path `cp` in EVERY client-path position
+    (two-path verbs: source, target, both), well-formed paths below the root client path elsewhere"""
+    names, idx, _ = registry_plans()["plans"][verb]
+    fm = _formats()
+    benign = {"rel_from": pre + b"inside", "rel_to": pre + b"moved-to", "path": pre + b"a", "relpath": pre + b"f"}
+    base = [benign[n] if n in PATH_PARAMS else filler(verb, n, fm) for n in names]
+    calls = []
+    subsets = [[i] for i in idx] + ([idx] if len(idx) > 1 else [])
+    for sub in subsets:
+        a = list(base)
+        for i in sub:
+            a[i] = cp
+        calls.append(("+".join(names[i] for i in sub), tuple(a)))
+    return calls
+
+
+def _verb_family(verb, cp, s=None):
+    """no verb has a finding family of its own any more (the VFS breakout was fixed): a plain violation,
+    unless the server is configured with a home directory whose name carries an encoded '..'"""
+    return _home_family(s, cp) if s is not None else None
 
 
 def dispatch(s, verb, args, body=None, commands=None):
@@ -603,7 +967,10 @@ def dispatch(s, verb, args, body=None, commands=None):
     return h.response
 
 
-def canon_resp(s, resp):
+_NONCE = re.compile(rb"(?<![0-9a-z])[0-9a-z]{20}(?![0-9a-z])")
+
+
+def canon_resp(s, resp, verb=None):
     if resp is None:
         return "none"
     w = s.world
@@ -615,100 +982,70 @@ def canon_resp(s, resp):
             b = b.encode("utf-8", "replace")
         b = b.replace(w.W.encode(), b"<W>")
         b = re.sub(rb"(chroot|filtered)-\d+", rb"\1-N", b)
+        b = re.sub(rb"0x[0-9a-f]{6,}", b"0xADDR", b)
+        b = _NONCE.sub(b"<nonce>", b)            # lock tokens
+        b = re.sub(rb"\.tmp[0-9A-Za-z_]{6,8}", b".tmpXXXXXX", b)     # temporary file names in error messages
         return b.hex() or "-"
     tag = "ok" if resp.is_successful() else "err"
     body = resp.body
     if resp.body_stream is not None:
-        body = b"".join(resp.body_stream)
+        try:
+            body = b"".join(resp.body_stream)
+        except Exception as e:
+            body = b"STREAM-EXC:" + type(e).__name__.encode()
+    if verb in BODY_UNSTABLE and body:
+        body = b"<body>"
     return "%s %s | %s" % (tag, ",".join(mask(a) for a in resp.args), mask(body))
 
 
-def snapshot(w, content=False):
-    """every entry of the world (control directories are recorded, not entered):
-    relpath -> "d" | "bzr" | ("l", target) | file content"""
-    snap = {}
-    W = os.fsencode(w.W)
-
-    def walk(d, rel):
-        snap[rel] = "d"
-        with os.scandir(d) as it:
-            entries = list(it)
-        for e in entries:
-            r = e.name if rel == b"." else rel + b"/" + e.name
-            if e.is_symlink():
-                snap[r] = ("l", os.readlink(e.path))
-            elif e.is_dir():
-                if e.name == b".bzr":
-                    snap[r] = "bzr"
-                else:
-                    walk(e.path, r)
-            else:
-                with open(e.path, "rb") as fh:
-                    snap[r] = fh.read()
-    walk(W, b".")
-    return snap
+def run_verb(s, verb, args):
+    try:
+        return canon_resp(s, dispatch(s, verb, args, body=BODIES.get(verb, b"")), verb)
+    except Exception as e:        # the handler converts errors itself; anything that escapes is compared as such
+        return "raised %s" % type(e).__name__
 
 
-def restore(w, before, after):
-    """undo what a writing verb did (the pristine content was recorded when the world was made)"""
-    W = os.fsencode(w.W)
-    for p in sorted(after, key=len, reverse=True):
-        if p not in before:
-            full = os.path.join(W, p)
-            if os.path.isdir(full) and not os.path.islink(full):
-                shutil.rmtree(full)
-            else:
-                os.unlink(full)
-    for p, v in before.items():
-        if after.get(p) != v and p in w.pristine and isinstance(w.pristine[p], bytes):
-            with open(os.path.join(W, p), "wb") as fh:
-                fh.write(w.pristine[p])
-
-
-def verbs_case(ctx, sa, sb, cp):
-    """every verb class with this client path, in world A and world B"""
+def verbs_case(ctx, sa, sb, cp, pre=b"", verbs=None):
+    """every verb of `verbs` (default: CORE_VERBS) with this client path in every client-path argument
+    position, in world A and in world B.  Oracle: equal responses (non-interference), no outside marker in
+    a response, the outside of BOTH worlds untouched (stat fingerprint of every entry, control directories
+    included).  Whatever a verb changed is put back from the pristine copy before the next verb."""
     case = dict(rcp=sa.rcp, cfg=sa.kind, cp=cp.hex())
-    wa = sa.world
-    root_rel = b"root"
-    for verb, _ in READ_VERBS:
-        ra = canon_resp(sa, dispatch(sa, verb, (cp,)))
-        rb = canon_resp(sb, dispatch(sb, verb, (cp,)))
-        ctx.count("verb:%s:%s" % (verb.decode(), ra.split(" ")[0]))
-        ctx.traces += 1
-        if MARK_OUT.hex() in ra or MARK_OUT.hex() in rb:
-            ctx.violation(dict(case, verb=verb.decode()),
-                          "verb %s with client path %r (root client path %r) returns content of a file outside the "
-                          "served directory" % (verb.decode(), cp, sa.rcp), family=_verb_family(verb, cp))
-        elif ra != rb:
-            ctx.violation(dict(case, verb=verb.decode()),
-                          "verb %s with client path %r (root client path %r): the response depends on what is "
-                          "OUTSIDE the served directory (world A: %s / world B: %s)"
-                          % (verb.decode(), cp, sa.rcp, ra[:160], rb[:160]), family=_verb_family(verb, cp))
-    before = snapshot(wa)
-    for verb in WRITE_VERBS:
-        if verb == b"put":
-            resp = dispatch(sa, verb, (cp, b""), body=b"W:put")
-        elif verb == b"append":
-            resp = dispatch(sa, verb, (cp, b""), body=b"W:append")
-        elif verb == b"put_non_atomic":
-            resp = dispatch(sa, verb, (cp, b"", b"T", b""), body=b"W:pna")
-        elif verb == b"mkdir":
-            resp = dispatch(sa, verb, (cp, b""))
-        else:
-            resp = dispatch(sa, verb, (cp,))
-        after = snapshot(wa)
-        ctx.count("verb:%s:%s" % (verb.decode(), canon_resp(sa, resp).split(" ")[0]))
-        ctx.traces += 1
-        changed = [p for p in set(before) | set(after) if before.get(p) != after.get(p)]
-        bad = [p for p in changed if not (p == root_rel or p.startswith(root_rel + b"/"))]
-        if bad:
-            ctx.violation(dict(case, verb=verb.decode()),
-                          "verb %s with client path %r (root client path %r) created/changed %r OUTSIDE the served "
-                          "directory" % (verb.decode(), cp, sa.rcp, sorted(bad)[:3]), family=_verb_family(verb, cp))
-        if changed:
-            ctx.count("write:changed-" + ("outside" if bad else "inside"))
-            restore(wa, before, after)
-            before = snapshot(wa)
+    for verb in (verbs or CORE_VERBS):
+        if verb not in registry_plans()["plans"]:
+            ctx.count("verb-missing:%s" % verb.decode())
+            continue
+        for pos, args in verb_calls(verb, cp, pre):
+            ra = run_verb(sa, verb, args)
+            rb = run_verb(sb, verb, args)
+            ctx.count("verb:%s:%s" % (verb.decode(), ra.split(" ")[0]))
+            ctx.traces += 1
+            vcase = dict(case, verb=verb.decode(), pos=pos, args=[a.hex() for a in args])
+            fam = _verb_family(verb, cp, sa)
+            if MARK_OUT.hex() in ra or MARK_OUT.hex() in rb:
+                ctx.violation(vcase, "verb %s with client path %r as %s (root client path %r) returns content of a file "
+                              "outside the served directory" % (verb.decode(), cp, pos, sa.rcp), family=fam)
+            elif ra != rb:
+                ctx.violation(vcase, "verb %s with client path %r as %s (root client path %r): the response depends on "
+                              "what is OUTSIDE the served directory (world A: %s / world B: %s)"
+                              % (verb.decode(), cp, pos, sa.rcp, ra[:160], rb[:160]), family=fam)
+            for s in (sa, sb):
+                w = s.world
+                changed = sorted(world_changes(w))
+                if not changed:
+                    continue
+                touched = [q for q in changed if not is_inside(q)]
+                bad = [q for q in touched if differs_from_pristine(w, q)]
+                if bad:
+                    ctx.violation(vcase, "verb %s with client path %r as %s (root client path %r) created/changed/removed "
+                                  "%r OUTSIDE the served directory (world %s)"
+                                  % (verb.decode(), cp, pos, sa.rcp, bad[:3], w.tag), family=fam)
+                elif touched:
+                    # e.g. the temporary file of an atomic put on the served directory itself (client path ""),
+                    # which LocalTransport creates next to its target and removes again: nothing outside differs
+                    ctx.count("write:transient-name-outside:%s" % verb.decode())
+                ctx.count("write:changed-" + ("outside" if bad else "inside"))
+                put_back(w, changed)
 
 
 # --------------------------------------------------------------------------
@@ -812,6 +1149,160 @@ def t2_userdirs(ctx, servers, cps):
 class _OpenUrl:
     """request class (dispatched through the real handler, so the real
     setup_jail / pre_open hook apply) that opens a control directory at a URL"""
+
+
+JAIL_TOKENS = ["/", ".", "..", "%2F", "%2E", "%2e%2e", "~", "a", "ab", "%41", "%%32E", "%25", "a%20b", "home", "evil", "f", "%FF"]
+JAIL_URLS = ["", "a/", "a", "a/a/", "ab/", "home/u/", "../", "a/../../a/", "%2E%2E/", "..%2F", "a/..%2F", "a/..%2F..%2Fevil/",
+             "%%32E%%32E/", "a/%%32E%%32E/", "a//..", "a/./a/", "a//a/", "/a/", "a%20b/", "a%20b/%FF/", "a/%FF/", "%41/",
+             "~/", "~/..%2F..%2F", "a/a%20b/", "a/../a/", "a/%2e%2e/a/", ".%2E/", "a/.%2e/evil/"]
+JAIL_ROOTS = ["", "a", "a/a", "a%20b"]       # clone relpaths of the jail root ("" = the backing transport itself)
+JAIL_RELS = [b"f", b".bzr/branch-format"]
+
+
+def gen_jail_urls(rng, n_random):
+    seen, out = set(), []
+    for u in JAIL_URLS + ["".join(t) for k in (1, 2) for t in itertools.product(JAIL_TOKENS, repeat=k)]:
+        if u not in seen:
+            seen.add(u)
+            out.append(u)
+    for _ in range(n_random):
+        k = rng.randint(3, 6)
+        u = "".join(t for pair in zip([rng.choice(JAIL_TOKENS) for _ in range(k)],
+                                      [rng.choice(["/", "/", ""]) for _ in range(k)]) for t in pair)
+        if u not in seen:
+            seen.add(u)
+            out.append(u)
+    return out
+
+
+def jail_url_cases(ctx, s, urls):
+    """a transport built from a URL below the backing transport (`get_transport_from_url(prefix + p)`) — what
+    a request has to do to name a location that is not a clone of its backing transport.
+    T2: its .base, what _pre_open_hook says for several jail roots, the relpath a read hands to the local
+    transport and what the read returns, against the model (`urlBase`, `jailAllows`, `urlBackingRel`,
+    `urlLocate`).  Oracle (model-free): every inside file carries its own relpath as content, every outside
+    file a marker — so a read that returns data tells where it landed: for a URL the jail admits that must be
+    below the jail root's directory.  A failure has a (known) family only if the URL is not in normal form."""
+    from breezy.bzr.smart import request as R
+    from breezy import transport as T
+    from urllib.parse import unquote_to_bytes
+    w, P, bt = s.world, s.prefix, s.bt
+    root_h = hexb(w.root.encode())
+    base_h = hexb(s.base.encode()) if s.base is not None else "~"
+    tbl, pfx_h = tbl_hex(s), hexb(P.encode())
+    roots = [(j, bt.clone(j) if j else bt) for j in JAIL_ROOTS]
+    cases, lines, outs, post = [], [], [], []
+    for u in urls:
+        ub = u.encode()
+        case = dict(op="jail-url", cfg=s.kind, url=u)
+        ctx.case(case, nontrivial=("." in u or "%" in u or "//" in u or "~" in u))
+        try:
+            t = T.get_transport_from_url(P + u)
+        except Exception as e:
+            ctx.count("jail-url:unbuildable:%s" % type(e).__name__)
+            continue
+        if not t.base.startswith(P):
+            ctx.mismatch(case, "base=" + t.base, "a base with prefix " + P)
+            continue
+        real_base = t.base[len(P):].encode()
+        admitted = {}
+        for j, jt in roots:
+            R.jail_info.transports = [jt]
+            try:
+                R._pre_open_hook(t)
+                admitted[j] = True
+            except Exception:
+                admitted[j] = False
+            finally:
+                R.jail_info.transports = None
+            cases.append(dict(case, jail=j))
+            lines.append("jurl %s %s %s %s %s %s %s" % (root_h, base_h, tbl, pfx_h, hexb(j.encode() or b"."), hexb(ub), hexb(b"f")))
+            outs.append(None)
+            post.append(("adm", len(lines) - 1, (real_base, admitted[j])))
+            ctx.count("jail-url:%s" % ("admitted" if admitted[j] else "refused"))
+        for rel in JAIL_RELS:
+            take_activity(s)
+            out = read_outcome_real(lambda: t.get_bytes(rel.decode()))
+            act = take_activity(s)
+            bk = act[0][1].encode("utf-8", "surrogateescape") if act else None
+            cases.append(dict(case, rel=rel.decode()))
+            lines.append("jurl %s %s %s %s %s %s %s" % (root_h, base_h, tbl, pfx_h, hexb(b"."), hexb(ub), hexb(rel)))
+            outs.append(None)
+            post.append(("read", len(lines) - 1, (bk, out)))
+            # the oracle: where did an admitted read land?
+            if out.startswith("data:"):
+                data = bytes.fromhex(out[5:])
+                for j, _jt in roots:
+                    if not admitted[j] or (rel != b"f"):
+                        continue
+                    jd = unquote_to_bytes(j.encode())
+                    want = b"I:" + (jd + b"/" if jd else b"")
+                    ctx.count("jail-url:admitted-read-with-data")
+                    if MARK_OUT in data or not data.startswith(want):
+                        ctx.violation(dict(case, jail=j, rel=rel.decode()),
+                                      "the jail rooted at %r admits the URL <prefix>%s, and a read of %r through it "
+                                      "returns %r: a location OUTSIDE the jail root" % (j or "<backing transport>", u, rel, data[:60]),
+                                      family=_family("jail", ub) or _jail_sibling_family(j, ub))
+    replies = ctx.model(lines)
+    for (kind, idx, obs), c in zip(post, cases):
+        m = replies[idx]
+        mm = dict(x.split("=", 1) for x in m.split(" ")) if "=" in m else {}
+        ctx.traces += 1
+        if not mm:
+            ctx.mismatch(c, repr(obs), m, line=lines[idx])
+            continue
+        if kind == "adm":
+            real_base, adm = obs
+            impl = "base=%s allowed=%s" % (hexb(real_base), "T" if adm else "F")
+            model = "base=%s allowed=%s" % (mm["base"], mm["allowed"])
+            if impl != model:
+                ctx.mismatch(c, impl, model, line=lines[idx])
+            # the theorem's statement on the model's own output: admitted + normal form => inside the jail root
+            continue
+        bk, out = obs
+        if bk is not None and hexb(bk) != mm["bk"]:
+            ctx.mismatch(c, "bk=" + hexb(bk), "bk=" + mm["bk"], line=lines[idx])
+            continue
+        if mm["os"].startswith("ok:"):
+            uos = bytes.fromhex(mm["os"][3:]) if mm["os"] != "ok:-" else b""
+            exp = read_outcome_os(w.root.encode() + b"/" + uos)
+            loc = bytes.fromhex(mm["loc"]) if mm["loc"] != "-" else b""
+            inside_model = (loc + b"/").startswith(w.root.encode() + b"/")
+            ctx.count("jail-url:loc-" + ("inside" if inside_model else "OUTSIDE") + (":normal-form" if mm["norm"] == "T" else ":not-normal-form"))
+            if mm["norm"] == "T" and not inside_model:
+                ctx.mismatch(c, "theorem jail_url_inside_served", "model location outside for a normal-form URL: " + m)
+        else:
+            exp = mm["os"]
+        if bk is None and out == "E:InvalidURL" and mm["os"] == "E:InvalidURL":
+            exp = out
+        if exp != out:
+            ctx.mismatch(c, out, exp, line=lines[idx])
+
+
+def _jail_sibling_family(j, ub):
+    """jail root with an escape in its name and a URL whose decoded form is not UTF-8: `unescape` hands such a
+    path back undecoded, so the read lands in the sibling directory named like the ESCAPED jail root
+    (theorem jail_invalid_utf8_sibling_witness; inside the served directory, and no request has such a jail
+    root: SmartServerRequestHandler's jail root is the backing transport)"""
+    from urllib.parse import unquote_to_bytes
+    if "%" in j:
+        try:
+            unquote_to_bytes(ub).decode("utf-8")
+        except UnicodeDecodeError:
+            return "jail-subroot-escaped-name-invalid-utf8-url"
+    return None
+
+
+def userdir_home_cases(ctx, wa, wb, fx):
+    """servers whose user table has home directories that are not canonical escaped strings (mild ones:
+    theorem userdir_locate_inside; others: witness userdir_percent_home_witness): T2 through the translate
+    functions / clone / traced reads, and every core verb in two worlds"""
+    for name, _tbl in HOME_TABLES:
+        sa_, sb_ = make_server(wa, "/", "homes:" + name), make_server(wb, "/", "homes:" + name)
+        ctx.count("userdir-home-table:" + name)
+        t2_paths(ctx, sa_, HOME_PATHS, fx, all_rels=True)
+        for cp in (HOME_PATHS if ctx.thorough() else HOME_PATHS[:1] + HOME_PATHS[3:5]):
+            verbs_case(ctx, sa_, sb_, cp)
 
 
 def jail_cases(ctx, sa, sb):
@@ -937,9 +1428,12 @@ def run(ctx, n_exh=None, n_deep=None, n_verbs=None):
     ctx.extra["domain"] = dict(tokens=TOKENS, exhaustive_translate=n_exh, exhaustive_stack=n_deep,
                                exhaustive_verbs=n_verbs, random=len(rnd), malformed=len(bad), configs=CONFIGS)
 
+    def pre_of(r):
+        return b"/" + r.strip("/").encode() + b"/" if r.strip("/") else b""
+
     def prefixed(r, cps):
-        # under a non-trivial root client path half of the paths are sent below the root
-        pre = b"/" + r.strip("/").encode() + b"/" if r.strip("/") else b""
+        # under a non-trivial root client path the paths are sent below the root
+        pre = pre_of(r)
         return [pre + c for c in cps] if pre else cps
 
     import time
@@ -953,13 +1447,13 @@ def run(ctx, n_exh=None, n_deep=None, n_verbs=None):
     for k in CONFIGS:
         # corpus first: pinned past failures, through the stack and through every verb class
         for cp in prefixed(k[0], corpus):
-            verbs_case(ctx, sa[k], sb[k], cp)
+            verbs_case(ctx, sa[k], sb[k], cp, pre_of(k[0]))
         suspects[k] += t2_paths(ctx, sa[k], prefixed(k[0], corpus), fx)
     for k in CONFIGS:
         s, r = sa[k], k[0]
         # directed stream: every one through the translate functions and a traced read (canary oracle) ...
         suspects[k] += t2_paths(ctx, s, prefixed(r, directed), fx)
-        t2_paths(ctx, s, prefixed(r, SEEDS), fx)
+        t2_paths(ctx, s, prefixed(r, SEEDS), fx, all_rels=True)
         # all strings of <= n_exh tokens below the root client path (translate functions only) ...
         if k[1] != "plain":      # the translate functions do not depend on the backing stack
             t2_paths(ctx, s, prefixed(r, only_shallow), fx, deep=False)
@@ -985,23 +1479,47 @@ def run(ctx, n_exh=None, n_deep=None, n_verbs=None):
         pre = b"/" + k[0].strip("/").encode() + b"/" if k[0].strip("/") else b""
         extra = rng.sample(directed, min(len(directed), ctx.pick(25, 400)))
         for cp in prefixed(k[0], extra):
-            verbs_case(ctx, sa[k], sb[k], cp)
+            verbs_case(ctx, sa[k], sb[k], cp, pre_of(k[0]))
         for cp in suspects[k][: ctx.pick(25, 300)]:
             ctx.count("suspect:model-rejects-impl-accepts")
-            verbs_case(ctx, sa[k], sb[k], cp)
+            verbs_case(ctx, sa[k], sb[k], cp, pre_of(k[0]))
     tm["directed-verbs"] = round(time.time() - t0, 1)
     t0 = time.time()
     for i, k in enumerate(CONFIGS):
         # every verb class: the whole <= n_verbs-token set on the first configuration, a sample on the others
         vs = verbs_set if (i == 0 or ctx.thorough()) else rng.sample(verbs_set, min(len(verbs_set), 12))
         for cp in prefixed(k[0], SEEDS + vs + rnd_verbs):
-            verbs_case(ctx, sa[k], sb[k], cp)
+            verbs_case(ctx, sa[k], sb[k], cp, pre_of(k[0]))
     tm["verbs"] = round(time.time() - t0, 1)
+    t0 = time.time()
+    # EVERY entry of request.request_handlers that takes a client path (enumerated from the registry), the
+    # hostile path in every client-path position, two worlds: a fixed hostile set + a sample
+    plans = registry_plans()
+    allverbs = sorted(plans["plans"])
+    ctx.extra["registry"] = dict(verbs_with_client_path=len(allverbs), skipped=plans["skipped"],
+                                 two_path_verbs=sorted(v.decode() for v, (_, i, _c) in plans["plans"].items() if len(i) > 1))
+    for i, k in enumerate(CONFIGS):
+        hostile = REGISTRY_PATHS if (i == 0 or ctx.thorough()) else REGISTRY_PATHS[:: 4]
+        hostile = hostile + rng.sample(directed, ctx.pick(2, 40)) + (rnd[: ctx.pick(2, 60)] if i == 0 else [])
+        for cp in prefixed(k[0], hostile):
+            ctx.count("registry-sweep:paths")
+            verbs_case(ctx, sa[k], sb[k], cp, pre_of(k[0]), verbs=allverbs)
+    tm["registry"] = round(time.time() - t0, 1)
     socket_cases(ctx, sa[CONFIGS[3]], [b"%%32E%%32E/canary", b"..%2Fcanary"])
     socket_cases(ctx, sa[CONFIGS[0]], [b"a", b"inside", b"..%2Fcanary", b"%2E%2E/canary", b"a/..%2F..%2Fcanary", b"/a", b"\xc3\xa9/f",
                                 b"~/f", b"%00"] + rnd[:20])
+    t0 = time.time()
     jail_cases(ctx, sa[CONFIGS[0]], sb[CONFIGS[0]])
     jail_cases(ctx, sa[CONFIGS[3]], sb[CONFIGS[3]])
+    jurls = gen_jail_urls(rng, ctx.pick(150, 3000))
+    ctx.extra["domain"].update(jail_urls=len(jurls), jail_roots=JAIL_ROOTS)
+    jail_url_cases(ctx, sa[CONFIGS[0]], jurls)
+    jail_url_cases(ctx, sa[CONFIGS[3]], jurls)
+    tm["jail"] = round(time.time() - t0, 1)
+    t0 = time.time()
+    userdir_home_cases(ctx, wa, wb, fx)
+    tm["userdir-homes"] = round(time.time() - t0, 1)
+    ctx.extra["change_detector"] = ctx_detector[0]
 
 
 def replay(ctx, case):
@@ -1015,7 +1533,8 @@ def replay(ctx, case):
     else:
         cp = bytes.fromhex(case["cp"])
         t2_paths(ctx, sa_, [cp], fx)
-        verbs_case(ctx, sa_, sb_, cp)
+        pre = b"/" + rcp.strip("/").encode() + b"/" if rcp.strip("/") else b""
+        verbs_case(ctx, sa_, sb_, cp, pre, verbs=[case["verb"].encode()] if case.get("verb") else None)
         from breezy.bzr.smart import request as R, vfs
         out["impl"] = dict(tr=real_tr(sa_, R.SmartServerRequest, cp)[0], vfs=real_tr(sa_, vfs.HasRequest, cp)[0])
         out["model"] = ctx.model(["tr %s %s" % (hexb(rcp.encode()), hexb(cp)),
